@@ -313,6 +313,64 @@ func execStableConc1(c *ctx, line string) (obs string) {
 	}
 	// seed the stable bucket so that it is not stored inline in its parent page
 	directChurn(4)
+	// targeted prelude (half of the lines): a second client's Set of the SAME key completes inside
+	// the window of the main caller's Set; then the main caller writes its value again and reads
+	// (an implementation that remembers "the value last written" must not be fooled by the overlap)
+	if rng.Intn(2) == 0 {
+		k := bkeys[rng.Intn(len(bkeys))]
+		a, b := []byte(fmt.Sprintf("server-%d", rng.Intn(3))), []byte(fmt.Sprintf("other-%d", rng.Intn(3)))
+		alsoGet := rng.Intn(2) == 0
+		if rng.Intn(2) == 0 {
+			run.plan = func(string, []byte) {
+				done := make(chan struct{})
+				run.helpers.Add(1)
+				go func() {
+					defer run.helpers.Done()
+					defer close(done)
+					run.call("helper", "set", k, b, 0)
+					if alsoGet {
+						run.call("helper", "get", k, nil, 0)
+					}
+				}()
+				select {
+				case <-done:
+				case <-time.After(400 * time.Millisecond):
+					c.stat("sc_helper_serialised")
+				}
+			}
+			run.call("main", "set", k, a, 0)
+		} else {
+			uk := ukeys[rng.Intn(len(ukeys))]
+			k = uk
+			run.plan = func(string, []byte) {
+				done := make(chan struct{})
+				run.helpers.Add(1)
+				go func() {
+					defer run.helpers.Done()
+					defer close(done)
+					run.call("helper", "setu", uk, nil, 9)
+				}()
+				select {
+				case <-done:
+				case <-time.After(400 * time.Millisecond):
+					c.stat("sc_helper_serialised")
+				}
+			}
+			run.call("main", "setu", uk, nil, 4)
+		}
+		run.mu.Lock()
+		run.plan = nil
+		run.mu.Unlock()
+		run.helpers.Wait()
+		if k == bkeys[0] || k == bkeys[1] || k == bkeys[2] {
+			run.call("main", "set", k, a, 0)
+			run.call("main", "get", k, nil, 0)
+		} else {
+			run.call("main", "setu", k, nil, 4)
+			run.call("main", "getu", k, nil, 0)
+		}
+		c.stat("sc_prelude_overlapping_sets")
+	}
 	steps := 10 + rng.Intn(14)
 	for s := 0; s < steps; s++ {
 		if rng.Intn(12) == 0 {
